@@ -90,7 +90,7 @@ class TooManyPaths(Exception):
 
 
 class Event:
-    __slots__ = ('kind', 'site', 'name', 'fn', 'args', 'dest', 'lv', 'term', 'line', 'bb', 'value', 'call', 'pre', 'inlined', 'frame')
+    __slots__ = ('kind', 'site', 'name', 'fn', 'args', 'dest', 'lv', 'term', 'line', 'bb', 'value', 'call', 'pre', 'inlined', 'frame', 'defp')
 
     def __init__(self, kind, **kw):
         for s in self.__slots__:
@@ -515,7 +515,7 @@ class SymEx:
                     root, path = self.resolve_lv(st, s['lhs'])
                     st.write(root, path, val)
                     if root[0] not in ('local', 'flocal'):
-                        st.events.append(Event('write', lv=(root, path), term=val, line=s.get('cline') or s['line'], bb=bb, frame=st.fid))
+                        st.events.append(Event('write', lv=(root, path), term=val, line=s.get('cline') or s['line'], bb=bb, frame=st.fid, defp=body.defp))
                 elif s['k'] == 'setdiscr':
                     root, path = self.resolve_lv(st, s['lhs'])
                     st.write(root, path + ('<discr>',), ('const', s['variant']))
@@ -552,7 +552,7 @@ class SymEx:
                 nxt = [t['target']]
             elif k == 'assert':
                 c = self.operand(st, t['cond'])
-                st.events.append(Event('branch', term=c, value=1 if t['expected'] else 0, bb=bb, line=t.get('cline') or t['line'], name='assert:' + t['msg']))
+                st.events.append(Event('branch', term=c, value=1 if t['expected'] else 0, bb=bb, line=t.get('cline') or t['line'], name='assert:' + t['msg'], frame=st.fid, defp=body.defp))
                 nxt = [t['target']]
             elif k == 'call':
                 call = Call(body, bb, t)
@@ -560,7 +560,7 @@ class SymEx:
                 args = tuple(self.operand(st, a) for a in t['args'])
                 name = call.name or show(self.operand(st, t['func']))
                 pre = tuple(st.read(a[1][0], a[1][1]) if a[0] == 'mref' else a for a in args)
-                ev = Event('call', site=site, name=name, fn=call.fn, args=args, line=call.line, bb=bb, call=call, pre=pre, frame=st.fid)
+                ev = Event('call', site=site, name=name, fn=call.fn, args=args, line=call.line, bb=bb, call=call, pre=pre, frame=st.fid, defp=body.defp)
                 st.events.append(ev)
                 # opt-in inlining: run the callee's body in place (private helpers extracted by a refactoring)
                 if self.inline is not None and len(st.frames) < self.max_inline_depth:
@@ -590,7 +590,7 @@ class SymEx:
                         newv = ('call', OP_ASSIGN[opn], (old, args[1]), site)
                         st.write(lv[0], lv[1], newv)
                         if lv[0][0] not in ('local', 'flocal'):
-                            st.events.append(Event('write', lv=lv, term=newv, line=call.line, bb=bb, frame=st.fid))
+                            st.events.append(Event('write', lv=lv, term=newv, line=call.line, bb=bb, frame=st.fid, defp=body.defp))
                         modelled = True
                 # callee may write through every &mut it receives
                 for a, aop in zip(args, t['args']) if not modelled else []:
